@@ -54,6 +54,8 @@ DETECT = {   # name: (check id, caught by (target signature config), first resul
  "C05c": ("C05", "tpool_xv thread-lost-or-stuck (2:jnpWpjypJpJ)", "missed at first; caught after adding the worker-interrupt op W"),
  "C18c": ("C18", "rl_xv waiter-stuck / index-not-empty (M|L2U, M,pL2U,pL9U)", "missed at first; caught after adding the ranged-unlock op M"),
  "C17c": ("C17", "NOT CAUGHT (open gap)", "missed; needs an evict-to-end inside the file after a whole-file evict, then reuse"),
+ "C07c": ("C07", "chan_xv timed-recheck-needed (F:r|s, F:rrr|sss)", "caught at once"),
+ "C08c": ("C08", "NOT CAUGHT (open gap)", "missed; needs ~WorkPool on a plain OS thread with a joined worker vCPU"),
  "C04c": ("C04", "sleep_prog sleep-returned-later-interrupts-errno (k2s2, k3s1, k2s2w, k3s1w, k2s2d, k3s1d)", "missed at first; caught after adding the first-interrupt-wins oracle"),
 }
 for d in sorted(glob.glob(os.path.join(V, "seeded", "C*"))):
